@@ -67,6 +67,23 @@ def decompose(rng, prog):
             mac = "DEF_" + nm.upper()
             target.append("#define %s %s" % (mac, body.rstrip(";")))
             target.append("%s = %s;" % (nm, mac))
+        elif r < 0.33 and c.count(" = ") == 1 and c.rstrip().endswith(";"):
+            # a function-like macro called with a line break between its name and the parenthesis (and one inside the
+            # arguments): lines are consumed without being put out, the following statements must keep their numbers
+            nm, body = c.rstrip()[:-1].split(" = ", 1)
+            mac = "MK_" + nm.upper()
+            target.append("#define %s(name, members) name = members" % mac)
+            target.append(mac)
+            if rng.random() < 0.5:
+                target.append("    (%s, %s);" % (nm, body))
+            else:
+                target.append("    (%s," % nm)
+                target.append("     %s);" % body)
+            if rng.random() < 0.15:
+                target.append("#if 0")
+                target.append("this text is skipped ; ) (")
+                target.append("#endif")
+            continue
         elif r < 0.45:
             target.append("/* a comment that ends")
             target.append("   on the line of the statement */ " + c)
